@@ -760,7 +760,9 @@ func runC20(t interface{ Fatal(...any) }, spec *hutil.Spec, out *hutil.Out, e *v
 		if out.OverBudget() {
 			return
 		}
-		out.Progress(c.Name())
+		if !out.Begin(c.Name()) {
+			continue
+		}
 		out.Cells++
 		r := &c20run{cell: c}
 		e.Scenario = r.scenario
